@@ -407,6 +407,15 @@ theorem step_LInv (c c' : C) (op : Op) (r : Option Val) (hi : LInv c.heap c.open
     simp only [step] at h; split at h
     · cases h; exact ⟨hi, fun u s hu => Or.inl hu⟩
     · cases h
+  | tcall n =>
+    simp only [step] at h; split at h
+    · split at h
+      · rename_i h' l' hc
+        cases h
+        have res := closeLoop_spec _ _ _ _ _ _ hi hc
+        exact ⟨res.inv, fun u s hu => Or.inl (res.lowOnly u s hu).2⟩
+      · cases h
+    · cases h
   | ret =>
     simp only [step] at h
     split at h
